@@ -78,9 +78,9 @@ type Stmt interface{ isStmt() }
 type Text struct{ S string }
 type Print struct{ E Expr }
 type If struct {
-	Conds  []Expr
-	Bodies [][]Stmt
-	Else   []Stmt
+	Conds   []Expr
+	Bodies  [][]Stmt
+	Else    []Stmt
 	HasElse bool
 }
 type For struct {
@@ -176,11 +176,11 @@ func (s *TmplSet) Add(name string, body []Stmt) *Tmpl {
 }
 
 // Helpers for building ASTs tersely.
-func I(n int64) Lit            { return Lit{V: n} }
-func S(s string) Lit           { return Lit{V: s} }
-func B(b bool) Lit             { return Lit{V: b} }
-func Null() Lit                { return Lit{V: nil} }
-func V(n string) Var           { return Var{Name: n} }
-func T(s string) Text          { return Text{S: s} }
-func P(e Expr) Print           { return Print{E: e} }
+func I(n int64) Lit               { return Lit{V: n} }
+func S(s string) Lit              { return Lit{V: s} }
+func B(b bool) Lit                { return Lit{V: b} }
+func Null() Lit                   { return Lit{V: nil} }
+func V(n string) Var              { return Var{Name: n} }
+func T(s string) Text             { return Text{S: s} }
+func P(e Expr) Print              { return Print{E: e} }
 func Op(op string, l, r Expr) Bin { return Bin{Op: op, L: l, R: r} }
